@@ -137,8 +137,8 @@ func kinds() []kind {
 		{"float32", "float32", "", func() []value {
 			return []value{{"0", "exact", "0"}, {"1.5", "exact", "1.5"}, {"-2.25", "exact", "-2.25"}, {"abc", "reject", ""}, {"", "odd", ""}, {"1e39", "odd", ""}}
 		}, true},
-		{"enum-string", "E§", "type E§ string\n\nconst (\n\tE§A E§ = \"a\"\n\tE§B E§ = \"b\"\n)\n", func() []value {
-			return []value{{"a", "exact", `"a"`}, {"b", "exact", `"b"`}, {"zz", "odd", ""}, {"", "odd", ""}}
+		{"enum-string", "E§", "type E§ string\n\nconst (\n\tE§A E§ = \"a\"\n\tE§B E§ = \"b\"\n\tE§Op E§ = \">=\"\n\tE§Amp E§ = \"x&y's\"\n)\n", func() []value {
+			return []value{{"a", "exact", `"a"`}, {"b", "exact", `"b"`}, {">=", "exact", `">="`}, {"x&y's", "exact", `"x&y's"`}, {"zz", "odd", ""}, {"", "odd", ""}}
 		}, false},
 		{"enum-int", "I§", "type I§ int\n\nconst (\n\tI§One I§ = 1\n\tI§Two I§ = 2\n)\n", func() []value {
 			return []value{{"1", "exact", "1"}, {"2", "exact", "2"}, {"abc", "reject", ""}, {"7", "odd", ""}, {"", "odd", ""}}
@@ -665,7 +665,7 @@ func Main(tier, replay string) {
 				if m.Absent {
 					class = "absent"
 				}
-				if flagOf[cri].TopEnum && class == "exact" && strings.HasPrefix(ci.K.Name, "enum-") && !map[string]bool{"a": true, "b": true, "1": true, "2": true}[m.Val.Raw] {
+				if flagOf[cri].TopEnum && class == "exact" && strings.HasPrefix(ci.K.Name, "enum-") && !map[string]bool{"a": true, "b": true, ">=": true, "x&y's": true, "1": true, "2": true}[m.Val.Raw] {
 					class = "odd" // validateTopLevelOnlyEnum refuses values outside the declared constants
 				}
 				feat := map[string]string{"engine": e, "value-class": class}
